@@ -1,14 +1,241 @@
 /-
-C06 — evaluator property; theorems over LiquerModel/Eval.lean and LiquerModel/Ref.lean.
+C06 — Error containment: a failing step yields an error state or an exception, names the failing action, and
+nothing to the right of it is executed.
+Reference level (`ref_*`): every failing branch, propagation through any number of further steps, no further
+call.  Evaluator level (`eval_*`): by the refinement theorem (C01) the evaluator reports the same failure and
+executes a subsequence of the reference calls; one-level propagation at the evaluator.
+`Sound`, `Closed`, `CanonOK`: see the header of Props/C01.lean.
 -/
 import LiquerModel.Ref
 import LiquerProofs.Inst.Vocab
+import LiquerProofs.Lemmas.EvalErr
+import LiquerProofs.Lemmas.EvalCache
+import LiquerProofs.Lemmas.EvalExact
+import LiquerProofs.Lemmas.EvalExample
 
 namespace Liquer.C06
 
 /-- the regenerated command signature table satisfies the side conditions the evaluator theorems assume -/
 theorem inst_registry : Inst.registryOK Gen.registry = true := Inst.registry_ok
 
+/-! ### every failing branch of an action gives an error state naming the action -/
+
+/-- the error state of a failed action: marked as error, no data, position and query of the failure -/
+theorem fail_state_spec (st : EState) (act : Action) (attrs vol pos q) :
+    (failSt st act attrs vol pos q).isError = true ∧ (failSt st act attrs vol pos q).data = .none ∧
+      (failSt st act attrs vol pos q).errPos = pos ∧ (failSt st act attrs vol pos q).errQuery = q :=
+  failSt_spec st act attrs vol pos q
+
+/-- unknown command: error state at the action's position, no call -/
+theorem ref_unknown_command (env : Env) (n : Nat) (st : EState) (act : Action) (raw parent : Str) (extra : Extra)
+    (nss : List Str) (hns : namespacesOf st.vars = some nss)
+    (hl : (nss.getLast?.map env.reg.hasNs).getD false = true)
+    (hr : resolve env.reg nss act.name = none) :
+    refAction env (n+1) st act raw parent extra =
+      (.st (failSt st act (mergeAttrs st.attrs []) false (some act.pos) (some raw)), []) :=
+  Liquer.ref_unknown_command env n st act raw parent extra nss hns hl hr
+
+/-- argument that cannot be converted, too few or too many arguments (`parse_argv` fails): error state at the
+action's position; the command is not called (the calls are those of the link arguments) -/
+theorem ref_bad_arguments (env : Env) (n : Nat) (st : EState) (act : Action) (raw parent : Str) (extra : Extra)
+    (nss : List Str) (sig : CmdSig) (given : List PVal) (c1 : List Str)
+    (hns : namespacesOf st.vars = some nss) (hl : (nss.getLast?.map env.reg.hasNs).getD false = true)
+    (hr : resolve env.reg nss act.name = some sig)
+    (hp : refParams env n act.params raw parent = (.inl given, c1))
+    (ha : parseArgv sig.args (applyExtra extra given).1 (applyExtra extra given).2.1 = .fail) :
+    refAction env (n+1) st act raw parent extra =
+      (.st (failSt st act (mergeAttrs st.attrs sig.attrs) ((applyExtra extra given).2.2 || cmdVolatile sig.attrs)
+        (some act.pos) (some raw)), c1) :=
+  Liquer.ref_bad_arguments env n st act raw parent extra nss sig given c1 hns hl hr hp ha
+
+/-- the command raises: error state at the action's position -/
+theorem ref_command_raises (env : Env) (n : Nat) (st : EState) (act : Action) (raw parent : Str) (extra : Extra)
+    (nss : List Str) (sig : CmdSig) (given : List PVal) (c1 : List Str) (args : List Val)
+    (hns : namespacesOf st.vars = some nss) (hl : (nss.getLast?.map env.reg.hasNs).getD false = true)
+    (hr : resolve env.reg nss act.name = some sig)
+    (hp : refParams env n act.params raw parent = (.inl given, c1))
+    (ha : parseArgv sig.args (applyExtra extra given).1 (applyExtra extra given).2.1 = .ok args)
+    (hc : cmdSem sig.ns sig.name st.data st.vars args = .raises) :
+    refAction env (n+1) st act raw parent extra =
+      (.st (failSt st act (mergeAttrs st.attrs sig.attrs) ((applyExtra extra given).2.2 || cmdVolatile sig.attrs)
+        (some act.pos) (some raw)), c1 ++ callOf st sig args) :=
+  Liquer.ref_command_raises env n st act raw parent extra nss sig given c1 args hns hl hr hp ha hc
+
+/-- a failing sub-evaluation: error state with the position and query of the failing action *of the sub-query* -/
+theorem ref_sub_fails (env : Env) (n : Nat) (st : EState) (act : Action) (raw parent : Str) (extra : Extra)
+    (nss : List Str) (sig : CmdSig) (given : List PVal) (c1 c3 : List Str) (args : List Val) (x : Val) (qtext : Str)
+    (sub : EState)
+    (hns : namespacesOf st.vars = some nss) (hl : (nss.getLast?.map env.reg.hasNs).getD false = true)
+    (hr : resolve env.reg nss act.name = some sig)
+    (hp : refParams env n act.params raw parent = (.inl given, c1))
+    (ha : parseArgv sig.args (applyExtra extra given).1 (applyExtra extra given).2.1 = .ok args)
+    (hc : cmdSem sig.ns sig.name st.data st.vars args = .subeval x qtext)
+    (hs : refText env n qtext = (.st sub, c3)) (he : sub.isError = true) :
+    refAction env (n+1) st act raw parent extra =
+      (.st (failSt st act (mergeAttrs st.attrs sig.attrs) (applyExtra extra given).2.2 sub.errPos sub.errQuery),
+        c1 ++ (callOf st sig args ++ c3)) :=
+  Liquer.ref_sub_fails env n st act raw parent extra nss sig given c1 c3 args x qtext sub hns hl hr hp ha hc hs he
+
+/-- an unparsable sub-query: error state at the action's position -/
+theorem ref_sub_unparsable (env : Env) (n : Nat) (st : EState) (act : Action) (raw parent : Str) (extra : Extra)
+    (nss : List Str) (sig : CmdSig) (given : List PVal) (c1 c3 : List Str) (args : List Val) (x : Val) (qtext : Str)
+    (hns : namespacesOf st.vars = some nss) (hl : (nss.getLast?.map env.reg.hasNs).getD false = true)
+    (hr : resolve env.reg nss act.name = some sig)
+    (hp : refParams env n act.params raw parent = (.inl given, c1))
+    (ha : parseArgv sig.args (applyExtra extra given).1 (applyExtra extra given).2.1 = .ok args)
+    (hc : cmdSem sig.ns sig.name st.data st.vars args = .subeval x qtext)
+    (hs : refText env n qtext = (.parseError, c3)) :
+    refAction env (n+1) st act raw parent extra =
+      (.st (failSt st act (mergeAttrs st.attrs sig.attrs) (applyExtra extra given).2.2 (some act.pos) (some raw)),
+        c1 ++ (callOf st sig args ++ c3)) :=
+  Liquer.ref_sub_unparsable env n st act raw parent extra nss sig given c1 c3 args x qtext hns hl hr hp ha hc hs
+
+/-- all branches at once: an error state produced by an action on a successful input never carries data -/
+theorem ref_failure_has_no_data (env : Env) (n : Nat) (st : EState) (act : Action) (raw parent : Str) (extra : Extra)
+    (e : EState) (hst : st.isError = false)
+    (h : (refAction env n st act raw parent extra).1 = .st e) (he : e.isError = true) : e.data = .none :=
+  refAction_error_no_data env n st act raw parent extra e hst h he
+
+/-! ### link arguments -/
+
+/-- a failing link argument raises with the position of that parameter and the query being evaluated; the
+parameters to its right are not evaluated (the result and the calls do not depend on them) -/
+theorem ref_link_fails (env : Env) (n : Nat) (lq : Query) (pos : Nat) (ps : List Param) (raw parent : Str)
+    (v : EState) (c1 : List Str) (hl : refLink env n lq parent = (.st v, c1)) (he : v.isError = true) :
+    refParams env (n+1) (.link lq pos :: ps) raw parent = (.inr (.raised (some pos) (some raw)), c1) :=
+  Liquer.ref_link_fails env n lq pos ps raw parent v c1 hl he
+
+/-- … at any position after plain arguments -/
+theorem ref_link_fails_after (env : Env) (n : Nat) (pre : List (Str × Nat)) (lq : Query) (pos : Nat) (post : List Param)
+    (raw parent : Str) (v : EState) (c1 : List Str) (hl : refLink env n lq parent = (.st v, c1))
+    (he : v.isError = true) :
+    refParams env (n + 1 + pre.length) (pre.map (fun tp => Param.str tp.1 tp.2) ++ .link lq pos :: post) raw parent =
+      (.inr (.raised (some pos) (some raw)), c1) :=
+  Liquer.ref_link_fails_after env n pre lq pos post raw parent v c1 hl he
+
+/-- … and after successful link arguments the abort propagates with the calls made so far -/
+theorem ref_abort_after_link (env : Env) (n : Nat) (lq : Query) (pos : Nat) (ps : List Param) (raw parent : Str)
+    (v : EState) (c1 c2 : List Str) (o : Outcome)
+    (hl : refLink env n lq parent = (.st v, c1)) (he : v.isError = false)
+    (h : refParams env n ps raw parent = (.inr o, c2)) :
+    refParams env (n+1) (.link lq pos :: ps) raw parent = (.inr o, c1 ++ c2) :=
+  Liquer.ref_abort_after_link env n lq pos ps raw parent v c1 c2 o hl he h
+
+/-- the action aborts with what aborted its parameters; the command itself is not called -/
+theorem ref_params_abort (env : Env) (n : Nat) (st : EState) (act : Action) (raw parent : Str) (extra : Extra)
+    (nss : List Str) (sig : CmdSig) (o : Outcome) (c1 : List Str)
+    (hns : namespacesOf st.vars = some nss) (hl : (nss.getLast?.map env.reg.hasNs).getD false = true)
+    (hr : resolve env.reg nss act.name = some sig)
+    (hp : refParams env n act.params raw parent = (.inr o, c1)) :
+    refAction env (n+1) st act raw parent extra = (o, c1) :=
+  Liquer.ref_params_abort env n st act raw parent extra nss sig o c1 hns hl hr hp
+
+/-! ### nothing to the right of the failure is executed -/
+
+/-- the failure of the predecessor propagates unchanged (same position and query of the failure, data cleared)
+and no further call is made -/
+theorem ref_error_stops (env : Env) (n : Nat) (p q : Query) (r : Option Seg) (raw : Str) (extra : Extra)
+    (input : Option Val) (e : EState) (c : List Str)
+    (h : refQ env n p (p.encode Gen.escapeTable) .none input = (.st e, c)) (he : e.isError = true)
+    (hp : q.predecessor = some (p, r)) (hpe : p.segments.isEmpty = false) :
+    refQ env (n+1) q raw extra input = (.st { e with data := .none, query := q.encode Gen.escapeTable }, c) :=
+  Liquer.ref_error_stops env n p q r raw extra input e c h he hp hpe
+
+/-- … through any number `k` of further steps -/
+theorem ref_error_stops_chain (env : Env) (n : Nat) (p : Query) (input : Option Val) (e : EState) (c : List Str)
+    (h : refQ env n p (p.encode Gen.escapeTable) .none input = (.st e, c)) (he : e.isError = true)
+    {q : Query} {k : Nat} (hch : Chain p q k) (raw : Str) (extra : Extra) :
+    refQ env (n+k) q raw extra input = (.st { e with data := .none, query := q.encode Gen.escapeTable }, c) :=
+  Liquer.ref_error_stops_chain env n p input e c h he hch raw extra
+
+/-- the same for an exception (failed link argument) -/
+theorem ref_raised_stops_chain (env : Env) (n : Nat) (p : Query) (input : Option Val) (a : Option Nat) (b : Option Str)
+    (c : List Str) (h : refQ env n p (p.encode Gen.escapeTable) .none input = (.raised a b, c))
+    {q : Query} {k : Nat} (hch : Chain p q k) (raw : Str) (extra : Extra) :
+    refQ env (n+k) q raw extra input = (.raised a b, c) :=
+  Liquer.ref_raised_stops_chain env n p input a b c h hch raw extra
+
+/-! ### the evaluator -/
+
+/-- Evaluator, with any sound cache: if the reference interpretation fails with an error state, so does the
+evaluator — marked as error, no data, same position and query of the failure — and the executed calls are a
+subsequence of the reference calls (which stop at the failure). -/
+theorem eval_reports_failure {env : Env} {C : Query → Prop} {T : Str → Prop} (hC : Closed env C T)
+    (hcanon : ∀ q, C q → CanonOK env q) (n m : Nat) (w : World) (q : Query) (raw : Str) (extra : Extra)
+    (input : Option Val) (uc : Bool) (hS : Sound env w) (hCq : C q) (huc : uc = true → input = none)
+    (hne : (evalQ env n w q raw extra input uc).2 ≠ .unmodelled)
+    (e : EState) (c : List Str) (href : refQ env m q raw extra input = (.st e, c)) (he : e.isError = true) :
+    ∃ e' c', (evalQ env n w q raw extra input uc).2 = .st e' ∧ e'.isError = true ∧ e'.data = e.data ∧
+      e'.errPos = e.errPos ∧ e'.errQuery = e.errQuery ∧
+      (evalQ env n w q raw extra input uc).1.calls = w.calls ++ c' ∧ c'.Sublist c := by
+  obtain ⟨m', c', h1, h2, h3⟩ := (evalQ_refines hC hcanon n w q raw extra input uc hS hCq huc).2 hne
+  have hdet := refQ_det env q raw extra input (m := m') (m' := m) (Outcome.sim_ne_unmodelled h3 hne)
+    (by rw [href]; simp)
+  rw [hdet, href] at h2 h3
+  obtain ⟨e', he', hcore⟩ := Outcome.sim_st_left (Outcome.sim_symm h3)
+  exact ⟨e', c', he', by rw [← EState.core_isError hcore]; exact he, (EState.core_data hcore).symm,
+    (EState.core_errPos hcore).symm, (EState.core_errQuery hcore).symm, h1, h2⟩
+
+/-- … and if the reference interpretation raises (failed link argument), the evaluator raises the same -/
+theorem eval_reports_raise {env : Env} {C : Query → Prop} {T : Str → Prop} (hC : Closed env C T)
+    (hcanon : ∀ q, C q → CanonOK env q) (n m : Nat) (w : World) (q : Query) (raw : Str) (extra : Extra)
+    (input : Option Val) (uc : Bool) (hS : Sound env w) (hCq : C q) (huc : uc = true → input = none)
+    (hne : (evalQ env n w q raw extra input uc).2 ≠ .unmodelled)
+    (a : Option Nat) (b : Option Str) (c : List Str) (href : refQ env m q raw extra input = (.raised a b, c)) :
+    ∃ c', (evalQ env n w q raw extra input uc).2 = .raised a b ∧
+      (evalQ env n w q raw extra input uc).1.calls = w.calls ++ c' ∧ c'.Sublist c := by
+  obtain ⟨m', c', h1, h2, h3⟩ := (evalQ_refines hC hcanon n w q raw extra input uc hS hCq huc).2 hne
+  have hdet := refQ_det env q raw extra input (m := m') (m' := m) (Outcome.sim_ne_unmodelled h3 hne)
+    (by rw [href]; simp)
+  rw [hdet, href] at h2 h3
+  have := Outcome.sim_symm h3
+  simp only [Outcome.sim_raised] at this
+  exact ⟨c', this, h1, h2⟩
+
+/-- Evaluator without a cache: exactly the reference failure and exactly its calls. -/
+theorem eval_reports_failure_nocache (env : Env) (n : Nat) (w : World) (q : Query) (raw : Str) (extra : Extra)
+    (input : Option Val) (uc : Bool) (hN : w.NoCache) :
+    (evalQ env n w q raw extra input uc).2 = (refQ env n q raw extra input).1 ∧
+    (evalQ env n w q raw extra input uc).1.calls = w.calls ++ (refQ env n q raw extra input).2 :=
+  ⟨((exact env n).q w q raw extra input uc hN).2.1, ((exact env n).q w q raw extra input uc hN).2.2⟩
+
+/-- Evaluator, one level, any world: an erroneous predecessor state is returned (data cleared, same failure
+record) without running the last step; only progress metadata is written and the call log is untouched. -/
+theorem eval_error_stops (env : Env) (n : Nat) (w w1 : World) (p q : Query) (r : Option Seg) (raw : Str)
+    (extra : Extra) (input : Option Val) (uc : Bool) (e : EState)
+    (hmiss : (extra.isEmpty && input.isNone && uc) = false ∨ w.get (q.encode Gen.escapeTable) = none)
+    (hp : q.predecessor = some (p, r)) (hpe : p.segments.isEmpty = false)
+    (h : evalQ env n (w.storeMeta raw (s "evaluating parent")) p (p.encode Gen.escapeTable) .none input uc = (w1, .st e))
+    (he : e.isError = true) :
+    evalQ env (n+1) w q raw extra input uc =
+      (w1.storeMeta raw (s "error"), .st { e with data := .none, query := q.encode Gen.escapeTable }) ∧
+    (w1.storeMeta raw (s "error")).calls = w1.calls :=
+  Liquer.eval_error_stops env n w w1 p q r raw extra input uc e hmiss hp hpe h he
+
+-- non-vacuity: `one/boom/add-2` — `boom` (second step, position 4) raises; the reference interpretation and the
+-- evaluator (empty cache) report an error state at position 4 of `one/boom`, with no data, and run `one`, `boom` only.
+open Ex in
+example :
+    (refQ env0 9 qBoom (s "one/boom/add-2") .none none).2 = [s "root.one(N;)", s "root.boom(I1;)"] ∧
+    (evalQ env0 9 {} qBoom (s "one/boom/add-2") .none none true).1.calls = [s "root.one(N;)", s "root.boom(I1;)"] ∧
+    (match (evalQ env0 9 {} qBoom (s "one/boom/add-2") .none none true).2 with
+      | .st e => (e.isError, e.data, e.errPos, e.errQuery) | _ => (false, .none, none, none)) =
+      (true, .none, some 4, some (s "one/boom")) ∧
+    (match (refQ env0 9 qBoom (s "one/boom/add-2") .none none).1 with
+      | .st e => (e.isError, e.data, e.errPos, e.errQuery) | _ => (false, .none, none, none)) =
+      (true, .none, some 4, some (s "one/boom")) := by
+  decide +kernel
+-- the hypotheses of `ref_error_stops_chain`: `one/boom` fails, `one/boom/add-2` is one further step
+open Ex in
+example : Chain qOneBoom qBoom 1 ∧
+    (match (refQ env0 8 qOneBoom (qOneBoom.encode Gen.escapeTable) .none none).1 with
+      | .st e => e.isError | _ => false) = true :=
+  ⟨Chain.one _ _ (some (.transform none [.mk (s "add") [.str (s "2") 13] 9] none))
+      (by simp [qBoom, qOneBoom, Query.predecessor]) (by decide), by decide +kernel⟩
+-- the hypotheses of the evaluator theorems: as in C01
+open Ex in
+example : Closed env0 C0 T0 ∧ (∀ q, C0 q → CanonOK env0 q) ∧ Sound env0 {} := ⟨closed0, canon0, Sound.empty _⟩
+
 end Liquer.C06
 
--- OBLIGATIONS: Liquer.C06.inst_registry
+-- OBLIGATIONS: Liquer.C06.inst_registry Liquer.C06.fail_state_spec Liquer.C06.ref_unknown_command Liquer.C06.ref_bad_arguments Liquer.C06.ref_command_raises Liquer.C06.ref_sub_fails Liquer.C06.ref_sub_unparsable Liquer.C06.ref_failure_has_no_data Liquer.C06.ref_link_fails Liquer.C06.ref_link_fails_after Liquer.C06.ref_abort_after_link Liquer.C06.ref_params_abort Liquer.C06.ref_error_stops Liquer.C06.ref_error_stops_chain Liquer.C06.ref_raised_stops_chain Liquer.C06.eval_reports_failure Liquer.C06.eval_reports_raise Liquer.C06.eval_reports_failure_nocache Liquer.C06.eval_error_stops
